@@ -184,6 +184,7 @@ func runSeq(c seqCase) (fail *vh.Failure) {
 	doubled := map[uint64]bool{}
 	reuse, reuseWhileLive := 0, 0
 	hasDouble, hasGC, hasNil, hasForget := false, false, false, false
+	acquiredAfterRelease := false
 
 	release := func(h heldName, method bool) *vh.Failure {
 		// the name must still be what was acquired
@@ -241,6 +242,9 @@ func runSeq(c seqCase) (fail *vh.Failure) {
 			}
 			if other, dup := liveText[text]; dup {
 				return vh.Failf("C18/duplicate-text-among-live-holders", "op %d: id %d has text %q which live id %d also has", i, id, text, other)
+			}
+			if len(everReleased) > 0 && !hasGC {
+				acquiredAfterRelease = true
 			}
 			if everReleased[id] {
 				reuse++
@@ -326,6 +330,10 @@ func runSeq(c seqCase) (fail *vh.Failure) {
 	}
 	if reuse > 0 {
 		vh.Label("seq:id-reused")
+		seqReused.Add(1)
+	}
+	if acquiredAfterRelease {
+		seqCouldReuse.Add(1)
 	}
 	vh.LabelN("seq:ops", len(c.Ops))
 	if reuseWhileLive > 0 {
@@ -370,7 +378,17 @@ func TestSequentialModel(t *testing.T) {
 		return c
 	}
 	vh.Check(t, "TestSequentialModel", vh.N(4000, 100000), gen, memoized(runSeq))
+	// "releasing a name ... makes its id available again": sync.Pool does not promise that a
+	// particular released id comes back, but over hundreds of histories that acquire after a
+	// release (without a collection in between) not a single reuse means released ids are lost
+	if could, did := seqCouldReuse.Load(), seqReused.Load(); !t.Failed() && !vh.Replaying() && could >= 200 && did == 0 {
+		f := vh.Failf("C18/released-ids-never-available-again", "%d sequential histories acquired after a release (no collection in between), none of them ever got a released id back", could)
+		path := vh.Violation("TestSequentialModel", f, map[string]int64{"histories_with_acquire_after_release": could, "histories_with_reuse": did})
+		t.Errorf("[%s] %s (%s)", f.Class, f.Msg, path)
+	}
 }
+
+var seqCouldReuse, seqReused atomic.Int64
 
 // ---------------------------------------------------------------------------------------
 // Part B: concurrent holders with an online monitor
